@@ -110,6 +110,7 @@ type nestedReq struct {
 
 type executor struct {
 	routers map[int]*mux.Router[*H]
+	matcherCache map[string]mux.Matcher // stand-alone matchers of `match` ops, by expression
 	facades map[int]*facadeSt
 	facadeRouter map[int]*mux.Router[*H]
 	hosts   map[int]*mux.Hosts
@@ -1088,9 +1089,19 @@ func (x *executor) stepInner(line string) string {
 		})
 	case t[0] == "match" && len(t) == 8:
 		return protectVersion(func() string {
-			m := x.parseMatcher(t[1])
-			if m == nil {
-				m = mux.MatcherFunc(func(*http.Request, *types.Context) bool { return true })
+			// a matcher is built once per expression and used for every later `match` of that expression (matchers are
+			// long-lived objects: whatever they remember between requests must not change their answers); expressions that
+			// refer to a Hosts object by id are rebuilt, the id may have been given to a new object
+			m := x.matcherCache[t[1]]
+			if m == nil || strings.Contains(t[1], "hosts:") {
+				m = x.parseMatcher(t[1])
+				if m == nil {
+					m = mux.MatcherFunc(func(*http.Request, *types.Context) bool { return true })
+				}
+				if x.matcherCache == nil {
+					x.matcherCache = map[string]mux.Matcher{}
+				}
+				x.matcherCache[t[1]] = m
 			}
 			req := mkRequest(t[2], t[3], t[4], t[5])
 			ctx := types.NewContext()
